@@ -286,7 +286,7 @@ var kinds = []string{"arraystack", "linkedliststack", "arrayqueue", "linkedlistq
 // list's capacity thresholds (64, 128, 256) and shrink again, rings of
 // capacities the short target does not use (10..15, 31..33, 64, 100) with
 // hundreds of wrap-arounds.
-var longCaps = []int{10, 11, 12, 13, 14, 15, 31, 32, 33, 64, 100}
+var longCaps = []int{10, 11, 12, 13, 14, 15, 31, 32, 33, 64, 100, 255, 256, 257, 300, 1000, 1025, 2048, 4100}
 
 func genLong(kind string) func(t *rapid.T) Case {
 	return func(t *rapid.T) Case {
@@ -297,7 +297,11 @@ func genLong(kind string) func(t *rapid.T) Case {
 		next := 1
 		phases := rapid.IntRange(1, 8).Draw(t, "phases")
 		for p := 0; p < phases; p++ {
-			n := rapid.IntRange(1, pbt.Size(220)).Draw(t, "len")
+			hiLen := pbt.Size(220)
+			if c.Cap > 200 {
+				hiLen = c.Cap + c.Cap/2 // phases long enough to fill and wrap a large ring
+			}
+			n := rapid.IntRange(1, hiLen).Draw(t, "len")
 			switch dom.Weighted(t, "phase", 5, 4, 4, 1, 1) {
 			case 4:
 				c.Ops = append(c.Ops, Op{O: "load", Vs: rapid.SliceOfN(rapid.IntRange(0, 50), 0, 150).Draw(t, "doc")})
